@@ -49,6 +49,7 @@ class H {
   function keyTimesTwo(): (Int) -> Int = (k) -> Int.init(k.value * 2)
   function keyToOne(): (Int) -> Int = (k) -> Int.init(1)
   function keyId(): (Int) -> Int = (k) -> k
+  function keyHalf(): (Int) -> Int = (k) -> Int.init(k.value / 2)
   function fromKeys(l: List<Int>): Set<Int> = Set.fromList(l)
   function consKey(k: Int, l: List<Int>): List<Int> = List.Cons(k, l)
 }
@@ -69,7 +70,7 @@ const METHOD_NAMES: [&str; 58] = [
   "customizedUnion", "merge", "equal", "compare", "contains", "intersection", "diff", "subset",
   "disjoint", "elements",
 ];
-const MORE_NAMES: [&str; 19] = ["fromList", "cons", "append", "reverse", "length", "first", "rest", "foldRight", "find", "singleton", "H", "value", "iter", "iterPrint", "keyTimesTwo", "keyToOne", "keyId", "fromKeys", "consKey"];
+const MORE_NAMES: [&str; 20] = ["fromList", "cons", "append", "reverse", "length", "first", "rest", "foldRight", "find", "singleton", "H", "value", "iter", "iterPrint", "keyTimesTwo", "keyToOne", "keyId", "keyHalf", "fromKeys", "consKey"];
 
 /// generic decoding of interpreter values: ints, bools, strings, unit -> scalars; tuples and
 /// structs -> arrays of their fields; variants -> {"t": tag, "d": [...]}
@@ -825,7 +826,7 @@ fn main() {
           }
         }
         // map with an order-reversing, an order-preserving, a collapsing and the identity function
-        for (fname, fm) in [("keyMirror", (|k: i32| 4 - k) as fn(i32) -> i32), ("keyTimesTwo", |k| k * 2), ("keyToOne", |_| 1), ("keyId", |k| k)] {
+        for (fname, fm) in [("keyMirror", (|k: i32| 4 - k) as fn(i32) -> i32), ("keyTimesTwo", |k| k * 2), ("keyToOne", |_| 1), ("keyId", |k| k), ("keyHalf", |k| k / 2)] {
           let f = c.h(fname, vec![]).unwrap();
           match c.m(&v, "map", vec![f]) {
             Ok(x) => {
